@@ -5,15 +5,12 @@ from pysym.api import BoolDom, Cases, Harness, IntDom, StrDom, assume
 
 
 class Item:
-    def __init__(self, name):
+    def __init__(self, model, name):
         self.name = name
 
 
 def make_list(names):
-    il = object.__new__(ItemsList)
-    il._item_name = "item"
-    il._items = [Item(x) for x in names]
-    return il
+    return ItemsList(None, names, Item)
 
 
 def h19a_index(key, n):
@@ -56,6 +53,152 @@ def h19b_name(n0, n1, n2, q):
     assert inside == (ql == n0.lower() or ql == n1.lower() or ql == n2.lower())
 
 
+# ------------------------------------------------------------------------------------------------ H19c
+class NoMerge:
+    def is_merge_reference(self, rc):
+        return False
+
+    def get(self, rc):
+        return False
+
+
+class DocModel:
+    """names and ids of sheets/tables; tables have no cells (0 x 0), so only the collection logic runs"""
+
+    def __init__(self, sheets):
+        self.sheets = {}         # sheet id -> [name, [table ids]]
+        self.tables = {}         # table id -> name
+        self.next_id = 100
+        for sname, tnames in sheets:
+            sid = self._new()
+            tids = []
+            for tn in tnames:
+                tid = self._new()
+                self.tables[tid] = tn
+                tids.append(tid)
+            self.sheets[sid] = [sname, tids]
+
+    def _new(self):
+        self.next_id += 1
+        return self.next_id
+
+    def sheet_ids(self):
+        return list(self.sheets)
+
+    def table_ids(self, sheet_id=None):
+        return list(self.sheets[sheet_id][1])
+
+    def sheet_name(self, sheet_id, value=None):
+        if value is None:
+            return self.sheets[sheet_id][0]
+        self.sheets[sheet_id][0] = value
+        return None
+
+    def table_name(self, table_id, value=None):
+        if value is None:
+            return self.tables[table_id]
+        self.tables[table_id] = value
+        return None
+
+    def add_sheet(self, name):
+        sid = self._new()
+        self.sheets[sid] = [name, []]
+        return sid
+
+    def add_table(self, sheet_id, table_name, from_table_id, x, y, num_rows, num_cols, num_header_rows=1, num_header_cols=1):
+        tid = self._new()
+        self.tables[tid] = table_name
+        self.sheets[sheet_id][1].append(tid)
+        return tid
+
+    def number_of_rows(self, table_id, n=None):
+        return 0
+
+    def number_of_columns(self, table_id, n=None):
+        return 0
+
+    def set_table_data(self, table_id, data):
+        pass
+
+    def merge_cells(self, table_id):
+        return NoMerge()
+
+
+def tname(upper, c):
+    return ("TABLE " if upper else "Table ") + c
+
+
+def unique_ignoring_case(names):
+    for i in range(len(names)):
+        for j in range(i):
+            if names[i].lower() == names[j].lower():
+                return False
+    return True
+
+
+def h19c_add_table(c1, c2, u2, rename, c3, u3, explicit, c4, u4):
+    """add_table after an optional rename: automatic names are fresh, an explicit duplicate (ignoring case) is refused
+    with IndexError and changes nothing, otherwise exactly one table with that name is appended last"""
+    from numbers_parser.document import Sheet
+    n1 = tname(False, c1)
+    n2 = tname(u2, c2)
+    assume(n1.lower() != n2.lower())
+    model = DocModel([("Sheet 1", [n1, n2])])
+    sid = model.sheet_ids()[0]
+    sheet = Sheet(model, sid)
+    if rename:
+        new = tname(u3, c3)
+        assume(new.lower() != n2.lower())
+        sheet.tables[0].name = new
+    before = [t.name for t in sheet.tables]
+    want = tname(u4, c4) if explicit else None
+    try:
+        t = sheet.add_table(want)
+    except IndexError:
+        assert explicit
+        dup = False
+        for b in before:
+            if b.lower() == want.lower():
+                dup = True
+        assert dup
+        assert [x.name for x in sheet.tables] == before and len(model.sheets[sid][1]) == 2
+        return
+    after = [x.name for x in sheet.tables]
+    assert len(after) == 3 and after[:2] == before
+    assert sheet.tables[-1] is t and sheet.tables[2] is t
+    if explicit:
+        assert t.name == want
+    assert unique_ignoring_case(after)
+    assert sheet.tables[t.name] is t
+    assert t.name in sheet.tables
+
+
+def h19c_add_sheet(c1, rename, c3, u3, explicit, c4, u4):
+    from numbers_parser.document import Document
+    s1 = "Sheet " + c1
+    model = DocModel([(s1, ["Table 1"])])
+    doc = object.__new__(Document)
+    doc._model = model
+    doc._sheets = ItemsList(model, model.sheet_ids(), __import__("numbers_parser.document", fromlist=["Sheet"]).Sheet)
+    if rename:
+        doc.sheets[0].name = ("SHEET " if u3 else "Sheet ") + c3
+    before = [x.name for x in doc.sheets]
+    want = (("SHEET " if u4 else "Sheet ") + c4) if explicit else None
+    try:
+        doc.add_sheet(want)
+    except IndexError:
+        assert explicit and before[0].lower() == want.lower()
+        assert [x.name for x in doc.sheets] == before
+        return
+    after = [x.name for x in doc.sheets]
+    assert len(after) == 2 and after[0] == before[0]
+    if explicit:
+        assert after[1] == want
+    assert unique_ignoring_case(after)
+    assert doc.sheets[after[1]] is doc.sheets[1]
+
+
+DIGITISH = [(0x30, 0x39), (0x41, 0x5A), (0x61, 0x7A)]
 ASCII2 = [(0x20, 0x7E)]
 
 HARNESSES = [
@@ -67,5 +210,17 @@ HARNESSES = [
                               n2=StrDom(1, ASCII2), q=StrDom(1 if tier == "quick" else 2, ASCII2)),
             bounds="3 items; names and query of 1 (quick) / 2 (thorough) printable-ASCII characters, all symbolic",
             outside=["names longer than 2 characters; non-ASCII names (case mapping tables)"]),
+]
+HARNESSES += [
+    Harness("H19c-table", h19c_add_table,
+            dict(c1=StrDom(1, DIGITISH), c2=StrDom(1, DIGITISH), u2=BoolDom(), rename=BoolDom(), c3=StrDom(1, DIGITISH), u3=BoolDom(),
+                 explicit=BoolDom(), c4=StrDom(1, DIGITISH), u4=BoolDom()),
+            bounds="sheet with 2 tables named 'Table <c>' / 'TABLE <c>' (c any ASCII letter or digit, symbolic), optional rename of "
+                   "the first, then add_table with an automatic or explicit (possibly case-variant duplicate) name",
+            stubs=["model stub holding names and ids (tables are 0 x 0, so only the collection logic runs)"],
+            outside=["names and order after save/reopen", "more than 2 existing siblings; names of other shapes"]),
+    Harness("H19c-sheet", h19c_add_sheet,
+            dict(c1=StrDom(1, DIGITISH), rename=BoolDom(), c3=StrDom(1, DIGITISH), u3=BoolDom(), explicit=BoolDom(), c4=StrDom(1, DIGITISH), u4=BoolDom()),
+            bounds="document with one sheet 'Sheet <c>', optional rename, then add_sheet automatic / explicit"),
 ]
 PROPERTY = "C19"
